@@ -108,3 +108,30 @@ def merge_counters(*cs):
     for c in cs:
         out.update(c)
     return out
+
+
+# zones with offset changes and the local dates (naive axis) of their 2023 changes
+DST_ZONES = {
+    "Europe/London": [(2023, 3, 26), (2023, 10, 29)],
+    "America/New_York": [(2023, 3, 12), (2023, 11, 5)],
+    "Australia/Lord_Howe": [(2023, 4, 2), (2023, 10, 1)],
+    "America/St_Johns": [(2023, 3, 12), (2023, 11, 5)],
+    "Pacific/Chatham": [(2023, 4, 2), (2023, 9, 24)],
+}
+
+
+def dst_env(rng, n, base_s, p=0.1):
+    """The process environment as a sampled dimension: with probability p a (zone, start) pair such that
+    a stream of n candles at base_s starting at `start` (naive wall-clock seconds) straddles the small hours
+    of a day on which `zone` changes its UTC offset.  None otherwise.  The library works on the timestamps'
+    own wall-clock axis, so the zone of the process must not matter anywhere."""
+    import calendar
+
+    if rng.random() >= p:
+        return None
+    zone = rng.choice(sorted(DST_ZONES))
+    y, m, d = rng.choice(DST_ZONES[zone])
+    target = calendar.timegm((y, m, d, 0, 0, 0)) + rng.randint(3600, 4 * 3600)
+    start = target - int(rng.random() * max(1, n) * base_s)
+    start -= start % base_s
+    return zone, start
